@@ -97,6 +97,9 @@ def run(ctx):
     with Pool(16) as pool:
         obs = pool.map(O.Safe(_observe), jobs, chunksize=2)
     obs, jobs = O.split_raised(ctx, 'C06', obs, jobs, 'harness.props.C06._observe')
+    if len(obs) < 6:        # (nearly) every observation raised: the violations are recorded, there is no table left to judge
+        ctx.exhaustive = False
+        return
     verdict = O.run_laws(ctx, 'CopulaLaws', 'CopulaLaws', obs)
     for o in obs:
         ctx.case('%s|%s' % (o['fam'], o['theta']))
